@@ -701,7 +701,9 @@ class Registry:
         names = [a.arg for a in fn.args.args]
         missing = [n for n in names if n not in env]
         if missing:
-            raise ValueError(f"contract lambda parameter(s) {missing} not available (have {sorted(env)})")
+            # a contract names a parameter or local that the code no longer has (renamed local, changed signature):
+            # the contract cannot be applied to this code -> outside the verifier's reach, never a verdict
+            raise EngineUnsupported(f"contract lambda parameter(s) {missing} not available (have {sorted(env)})")
         return {n: env[n] for n in names}
 
     # ------------------------------------------------------------------ calls
